@@ -1,9 +1,14 @@
 #!/bin/bash
 # tools/try_seed.sh <seed dir> <check id>... : apply the seeded change to /repo, run the given checks (quick), undo it straight afterwards.
+# With SEED_REPO=<a scratch clone of /repo> (and optionally SEED_VERIF=<a scratch copy of /verif>) the change is applied to the clone and the
+# checks run against it (VERIF_REPO), so that nothing else running against /repo is disturbed.
 d=$1; shift
-git -C /repo apply "$d/patch.diff" || { echo "PATCH DOES NOT APPLY"; exit 2; }
+R=${SEED_REPO:-/repo}; V=${SEED_VERIF:-/verif}
+git -C $R apply "$d/patch.diff" || { echo "PATCH DOES NOT APPLY"; exit 2; }
 for c in "$@"; do
-  out=$(cd /verif && ./check $c --tier quick 2>&1 | grep -E "VIOLATION|what:" | head -4)
+  all=$(cd $V && VERIF_REPO=$R ./check $c --tier quick 2>&1)
+  if echo "$all" | grep -q "^Traceback"; then echo "[$c] THE CHECK ITSELF CRASHED"; echo "$all" | tail -3; continue; fi
+  out=$(echo "$all" | grep -E "VIOLATION|what:" | head -4)
   if echo "$out" | grep -q VIOLATION; then echo "[$c] DETECTED"; echo "$out" | cut -c1-260 | head -3; else echo "[$c] missed"; fi
 done
-git -C /repo checkout -- . 
+git -C $R checkout -- .
